@@ -100,19 +100,25 @@ def c13_check(info):
     if kind in ("store", "tag"):
         was = ini["probe"][target][0]
         now = sprobe[target][0]
-        if now != was and now != "PidRefsDoesNotExist":
-            yield "after the failed call the pid is neither unbound nor bound as before", {"retrieve": _s(now)}
-        if vis["bind"].get(repr(target)) != ini["vis"]["bind"].get(repr(target)) and repr(target) in vis["bind"]:
-            yield "after the failed call a pid reference file for the pid remains", {}
-        if ref["outcome"][0] == "ok":
-            s2 = _fresh(root, info["tree"])
-            again = O.run(s2, op, c)
-            if again[0] != "ok":
-                yield "the pid cannot be stored again at once after the failed call", {"retry": again[0]}
-            else:
-                got = O.run(s2, ("retrieve", target), c)
-                if got[0] != "ok" and not (kind == "tag" and op[2] == "N"):
-                    yield "after a successful retry the pid is not retrievable", {"retrieve": got[0]}
+        bound_before = isinstance(was, tuple) or repr(target) in ini["vis"]["bind"]
+        if bound_before:
+            # the call could only be a rejected one: "its earlier binding is intact"
+            if now != was or vis["bind"].get(repr(target)) != ini["vis"]["bind"].get(repr(target)):
+                yield "after the failed call the pid's earlier binding is not intact", {"retrieve": _s(now)}
+        else:
+            if now != "PidRefsDoesNotExist":
+                yield "after the failed call the pid is neither unbound nor bound as before", {"retrieve": _s(now)}
+            if repr(target) in vis["bind"]:
+                yield "after the failed call a pid reference file for the pid remains", {}
+            if ref["outcome"][0] == "ok":
+                s2 = _fresh(root, info["tree"])
+                again = O.run(s2, op, c)
+                if again[0] != "ok":
+                    yield "the pid cannot be stored again at once after the failed call", {"retry": again[0]}
+                else:
+                    got = O.run(s2, ("retrieve", target), c)
+                    if got[0] != "ok" and not (kind == "tag" and op[2] == "N"):
+                        yield "after a successful retry the pid is not retrievable", {"retrieve": got[0]}
     elif kind == "store_meta":
         if sprobe[target][1:] != ini["probe"][target][1:]:
             yield "after the failed store_metadata the previous document version is not intact", {}
